@@ -16,6 +16,7 @@ pub mod c11;
 pub mod c12;
 pub mod c16;
 pub mod c18;
+pub mod c19;
 pub mod quire;
 
 pub type RunFn = fn(&mut Report);
@@ -35,6 +36,7 @@ pub static ALL: &[(&str, RunFn, ReplayFn)] = &[
     ("C11", c11::run, c11::replay),
     ("C12", c12::run, c12::replay),
     ("C18", c18::run, c18::replay),
+    ("C19", c19::run, c19::replay),
 ];
 
 /// `--replay <file>`: re-evaluate one saved case with plain code (no proptest) on the current tree
